@@ -13,6 +13,20 @@ Fixpoint unpack (defaults : list (option Q)) (p : list Q) : list (option Q) :=
                end
   end.
 
+(* Command.set(text) runs __init__ again ON THE SAME OBJECT.  A constructor that only assigns the parameters that are given
+   ("if len(p) > i: self.attr_i = p[i]", no defaults in front) leaves the attributes of the OLD instruction where the new one gives
+   none - the defect of ABIN, GRID, ANIS, MPLA and PRIG before acab8f4 / 1f47983: *)
+Fixpoint assign_given (old : list (option Q)) (p : list Q) : list (option Q) :=
+  match old with
+  | [] => []
+  | o :: os => match p with
+               | [] => o :: assign_given os []
+               | x :: r => Some x :: assign_given os r
+               end
+  end.
+(* as repaired: the attributes are first set to their defaults ("not given" = None), then the given ones assigned *)
+Definition set_again (defaults old : list (option Q)) (p : list Q) : list (option Q) := assign_given defaults p.
+
 (* HKLF N[0] S[1] r11..r33[1 0 0 0 1 0 0 0 1] sm[1] m[0] :
    n = p[0], s = p[1], matrix = p[2:11] if len(p) > 10, sm = p[11] if len(p) > 11, m = p[12] if len(p) > 12 *)
 Definition slice (l : list Q) (a b : nat) : list Q := firstn (b - a) (skipn a l).
